@@ -280,14 +280,27 @@ pub enum CheckOutcome {
     Panic(String),
 }
 
-pub fn evaluate(t: &Target, f: &Fault, r: &mut Rng) -> (CheckOutcome, Vec<String>) {
+pub fn evaluate(t: &Target, f: &Fault, r: &mut Rng) -> (CheckOutcome, Vec<String>, &'static str) {
     let rk = RawKey::from_master(&t.key);
     let mut st = t.base.clone();
     f.apply(&mut st, &rk, r);
     let uni = Universe::from_states(vec![st]);
     uni.lock().recording = false;
     let env = Env::single(uni, t.key.clone());
-    let chk = match catch(|| env.open().and_then(|repo| check_full(&repo).map_err(|e| errstr(&e)))) {
+    // the repositories have no local cache, so trusting it or not must make no difference to what check finds
+    let trust = r.chance(1, 3);
+    let how = if trust { "check(read_data, trust_cache)" } else { "check(read_data)" };
+    let chk = match catch(|| {
+        env.open().and_then(|repo| {
+            if trust {
+                repo.check(rustic_core::CheckOptions::default().read_data(true).trust_cache(true))
+                    .map(|res| res.0.iter().filter(|(l, _)| format!("{l:?}") == "Error").map(|(_, e)| format!("{e}")).collect::<Vec<_>>())
+                    .map_err(|e| errstr(&e))
+            } else {
+                check_full(&repo).map_err(|e| errstr(&e))
+            }
+        })
+    }) {
         Err(p) => CheckOutcome::Panic(p),
         Ok(Err(e)) => CheckOutcome::Err(e),
         Ok(Ok(errs)) => {
@@ -318,7 +331,7 @@ pub fn evaluate(t: &Target, f: &Fault, r: &mut Rng) -> (CheckOutcome, Vec<String
             }
         }
     }
-    (chk, bad)
+    (chk, bad, how)
 }
 
 pub fn run(ctx: &Ctx) -> (Report, Meta) {
@@ -350,7 +363,8 @@ pub fn run(ctx: &Ctx) -> (Report, Meta) {
         let t = &targets2[ti];
         let f = &t.faults[fi];
         rep.evaluations += 1;
-        let (chk, bad) = evaluate(t, f, r);
+        let (chk, bad, how) = evaluate(t, f, r);
+        rep.count(&format!("runs_of_{}", how.replace(['(', ')', ','], "_").replace(' ', "")), 1);
         let kind = f.kind();
         let outcome = match &chk {
             CheckOutcome::Clean => "clean",
@@ -368,7 +382,7 @@ pub fn run(ctx: &Ctx) -> (Report, Meta) {
             rep.violation(
                 i,
                 format!("check-misses:{kind}:{what}"),
-                format!("{}: check(read_data) reports no error, but {}", f.desc(), bad[0]),
+                format!("{}: {how} reports no error, but {}", f.desc(), bad[0]),
                 json!({"repository": t.desc, "target": ti, "fault": f.desc()}),
             );
         }
@@ -379,7 +393,7 @@ pub fn run(ctx: &Ctx) -> (Report, Meta) {
     rep.merge(res);
     let meta = Meta {
         level: "fault_enumeration",
-        rule: "targets = repositories from generated histories (2-4 backups, optionally forget+prune; one in three with the fixed-size chunker and no compression so that packs share a layout; tree packs often one root tree each). For every stored snapshot/index/pack file: remove; truncate to {0,1,15,16,31,32,len/2,len-1,len-4,len-16}; append 1 byte / a copy of itself; flip one bit at every structural position (nonce, first/last body byte, MAC, each blob's nonce/body/MAC, header nonce/body/MAC, each length-field byte) and random ones; replace by siblings of the same type; index files re-encrypted with one pack dropped / one blob entry dropped / duplicated / offset+1 / length-1 / type flipped / id changed / two ids exchanged. For each fault check(read_data) runs and, on the SAME state, every snapshot is read completely and compared with its content before the fault. Violation iff check is clean and a snapshot is unreadable or reads different content. distinct_nontrivial = distinct (fault kind, check outcome, restorable?)".to_string(),
+        rule: "targets = repositories from generated histories (2-4 backups, optionally forget+prune; one in three with the fixed-size chunker and no compression so that packs share a layout; tree packs often one root tree each). For every stored snapshot/index/pack file: remove; truncate to {0,1,15,16,31,32,len/2,len-1,len-4,len-16}; append 1 byte / a copy of itself; flip one bit at every structural position (nonce, first/last body byte, MAC, each blob's nonce/body/MAC, header nonce/body/MAC, each length-field byte) and random ones; replace by siblings of the same type; index files re-encrypted with one pack dropped / one blob entry dropped / duplicated / offset+1 / length-1 / type flipped / id changed / two ids exchanged. For each fault check(read_data) - one time in three with trust_cache, which must not matter without a cache - runs and, on the SAME state, every snapshot is read completely and compared with its content before the fault. Violation iff check is clean and a snapshot is unreadable or reads different content. distinct_nontrivial = distinct (fault kind, check outcome, restorable?)".to_string(),
         exhaustive: full,
         assumptions: vec![
             "exhaustive (thorough tier) = all listed fault kinds on every file of the target repositories; the quick tier samples flip positions and sibling pairs".to_string(),
